@@ -506,7 +506,6 @@ package document
 //@ func (*TemplateEngine).replaceVariablesInDocument
 //@ props C17
 //@ ghost B int
-//@ assume-no-panic
 //@ requires te != nil && docOwned(doc, B) && closedAbove(B) && imagesOK(data) && imgDoc(doc, B)
 //@ modifies Body.Elements, cell:any, Table.Rows, TableRow.*, TableCell.Paragraphs, Paragraph.*, Document.nextImageID, map:string:[]byte, Relationships.Relationships, []Relationship, Document.contentTypes, ContentTypes.Defaults, []Default, ImageInfo.Config, ImageConfig.AltText, ImageConfig.Title
 //@ ensures unchangedBelow(B)
@@ -544,3 +543,29 @@ package document
 //@ modifies nothing
 //@ ensures err == nil ==> fresh(result0)
 //@ ensures err != nil ==> result0 == nil
+
+
+// ---- TemplateRenderer (template_engine.go): logging wrappers around the engine ------------------------------
+//@ func (*TemplateRenderer).getMapKeys
+//@ props C17
+//@ modifies nothing
+//@ loop 1
+//@   invariant unchangedHeap() && freshArr(keys)
+
+//@ func (*TemplateRenderer).validateTemplateData
+//@ props C17
+//@ requires tr != nil && tr.logger != nil
+//@ modifies nothing
+//@ ensures result == nil <==> data != nil
+//@ loop 1
+//@   invariant unchangedHeap()
+//@ loop 2
+//@   invariant 0 <= #i && #i <= len(listData) && unchangedHeap()
+//@   decreases len(listData) - #i
+
+// RenderTemplate: validation and logging read only; the rendering itself is RenderTemplateToDocument.
+//@ func (*TemplateRenderer).RenderTemplate
+//@ props C17
+//@ requires tr != nil && tr.logger != nil && tr.engine != nil && tplErrVars() && cacheOK(tr.engine) && (data != nil ==> imagesOK(data))
+//@ modifies nothing
+//@ ensures err == nil ==> fresh(result0)
